@@ -743,3 +743,59 @@ def inline_calls(prog, t, depth=2):
                     return f(subst_params(rv[0][0], x[2:]), d - 1)
         return x
     return f(t, depth)
+
+
+# ---------------------------------------------------------------- values chosen by a branch: resolve per case
+def branch_conditions(b, t, depth=6):
+    """The switch conditions (stripped terms) that choose between several definitions of locals occurring in term t."""
+    conds = []
+
+    def f(x, d):
+        if not isinstance(x, tuple) or d <= 0:
+            return
+        if x[0] == 'var' and x[1] == b.path:
+            whole = [dd for dd in b.defs().get(x[2], []) if dd[4]]
+            if len(whole) > 1:
+                for dd in whole:
+                    for g, k, sw in b.guard_terms(dd[1]):
+                        g = strip(g)
+                        if g not in conds and not all(any(strip(g2) == g and k2 == k for g2, k2, s2 in b.guard_terms(o[1])) for o in whole):
+                            conds.append(g)
+                    f(b._def_term(dd), d - 1)
+            return
+        for y in x[1:]:
+            if isinstance(y, tuple):
+                f(y, d)
+    f(t, depth)
+    return conds
+
+
+def resolve_case(b, t, assume, depth=8):
+    """Term t with every local that has several definitions replaced by the definition consistent with `assume`
+    ({condition term: truth value}); tuple fields of aggregates are projected.  Locals that stay ambiguous are left."""
+    from . import opw
+
+    def f(x, d):
+        if not isinstance(x, tuple) or d <= 0:
+            return x
+        if x[0] == 'var' and x[1] == b.path:
+            whole = [dd for dd in b.defs().get(x[2], []) if dd[4]]
+            if len(whole) > 1:
+                ok = []
+                for dd in whole:
+                    contradicted = False
+                    for g, k, sw in b.guard_terms(dd[1]):
+                        g = strip(g)
+                        if g in assume and opw.truth(k) in (True, False) and opw.truth(k) != assume[g]:
+                            contradicted = True
+                    if not contradicted:
+                        ok.append(dd)
+                if len(ok) == 1:
+                    return f(b._def_term(ok[0]), d - 1)
+            return x
+        y = (x[0],) + tuple(f(z, d) if isinstance(z, tuple) else z for z in x[1:])
+        if y[0] == 'fld' and isinstance(strip(y[1]), tuple) and strip(y[1])[0] == 'agg' and str(y[2]).isdigit() and int(y[2]) < len(strip(y[1])) - 2 \
+                and strip(y[1])[1] not in ('array', 'vec'):
+            return f(strip(y[1])[2 + int(y[2])], d - 1)
+        return y
+    return f(t, depth)
